@@ -385,7 +385,7 @@ impl Prop for C04 {
             "float systems judged for solve only when the reference condition number is <= 1e10".into(),
         ]
     }
-    fn stream_len(&self) -> usize {
+    fn stream_len(&self, _tier: Tier) -> usize {
         700
     }
     fn random_cases(&self, tier: Tier) -> usize {
